@@ -291,6 +291,7 @@ def run(ctx, rep):
         check_setters(ctx, rep, cls)
         check_transform_listen(ctx, rep, kinds, cls)
     check_inplace(ctx, rep)
+    check_foreign_private_stores(ctx, rep)
     check_optimizer(ctx, rep)
     check_transform_cache(ctx, rep)
     check_memo_keys(ctx, rep)
@@ -657,14 +658,24 @@ def check_memo_keys(ctx, rep, rule='C11.M', only=None):
                         value_compared = False
                         for other in node.test.values[1:]:
                             for x in ast.walk(other):
-                                if isinstance(x, (ast.Name, ast.Attribute)) and not isinstance(getattr(x, '_parent', None), ast.Attribute) \
-                                        and not (isinstance(x, ast.Attribute) and x.attr in ('shape', 'dtype', 'device', 'ndim')):
-                                    par_ = getattr(x, '_parent', None)
-                                    if not (isinstance(par_, ast.Call) and isinstance(par_.func, ast.Name) and par_.func.id in ('len', 'type', 'id')):
+                                # a comparison of VALUES: `a != b` / `not torch.equal(a, b)` on the tensors themselves.  `a is not b` compares identities: an in-place update
+                                # (optimiser step + fire_parameter_changed) keeps the identity; `.shape` / `.dtype` / `len()` compare the metadata only
+                                if isinstance(x, ast.Compare) and any(isinstance(o, (ast.Eq, ast.NotEq)) for o in x.ops):
+                                    sides = [x.left] + list(x.comparators)
+                                    if not any(isinstance(y, ast.Attribute) and y.attr in ('shape', 'dtype', 'device', 'ndim') for sd in sides for y in ast.walk(sd)) and \
+                                            not any(isinstance(y, ast.Call) and isinstance(y.func, ast.Name) and y.func.id in ('len', 'type', 'id') for sd in sides for y in ast.walk(sd)):
                                         value_compared = True
+                                if isinstance(x, ast.Call) and (dotted_name(x.func) or '').split('.')[-1] in ('equal', 'allclose'):
+                                    value_compared = True
                         for st in stores:
                             deps = sorted({self_attr(x.value) for e in backward_slice(st.value, defs) for x in ast.walk(e)
                                            if isinstance(x, ast.Attribute) and x.attr == 'tensor' and self_attr(x.value)})
+                            if not deps:
+                                # `[p.tensor for p in self.<collection>.values()]`: tensors of the parameters held in a collection of the object
+                                for e in backward_slice(st.value, defs):
+                                    for x in ast.walk(e):
+                                        if isinstance(x, (ast.ListComp, ast.GeneratorExp, ast.DictComp)) and any(isinstance(y, ast.Attribute) and y.attr == 'tensor' for y in ast.walk(x)):
+                                            deps += sorted({self_attr(y) for g in x.generators for y in ast.walk(g.iter) if self_attr(y)})
                             if not deps:
                                 continue
                             n += 1
@@ -675,8 +686,8 @@ def check_memo_keys(ctx, rep, rule='C11.M', only=None):
                                     if r_ and any(isinstance(y, ast.Assign) and any(self_attr(t) == cache for t in y.targets) for y in ast.walk(r_[1])):
                                         dropped = True
                             rep.check(rule, f"{m.name}.{cname}.{fn.name}::self.{cache}", value_compared or dropped, where(m, st), {'derived_from': deps, 'guard': norm_text(node.test)[:100]},
-                                      f"{cname}.{fn.name} keeps `{norm_text(st.value)[:60]}`, computed from the tensor of self.{deps[0]}, in self.{cache} and recomputes it only when its "
-                                      f"shape / dtype / device changes: after `{deps[0]}.tensor = <new value of the same shape>` every holder still gets the value (or a view) of the old tensor")
+                                      f"{cname}.{fn.name} keeps `{norm_text(st.value)[:60]}`, computed from the tensor of self.{deps[0]}, in self.{cache} and recomputes it only under a test that does not compare the values (shape / dtype / device / identity of the tensors): after an update that leaves those "
+                                      f"unchanged (`{deps[0]}.tensor = <new value of the same shape>`, or an in-place optimiser step followed by the change notification) the old value is still served")
                     continue
                 for node in ast.walk(fn):
                     if not isinstance(node, ast.If):
@@ -1482,3 +1493,49 @@ def check_call_arguments(ctx, rep, rule='C11.K', module_prefix=None):
     if n < (5 if module_prefix is None else 1):
         rep.incomplete(rule, '*', '', f"only {n} callable models read their call arguments (expected the variational objectives and the Hamiltonian)")
     return n
+
+
+FOREIGN_POSITIVE = """
+class Cat:
+    def set(self, tensor):
+        for parameter in self._parameters:
+            if isinstance(parameter, Parameter):
+                parameter._tensor = tensor
+            else:
+                parameter.tensor = tensor
+        self._tensor = tensor
+"""
+
+
+def foreign_private_stores(tree):
+    """stores into the private storage of ANOTHER object (`p._tensor = v`, `p._need_update = …`): the owner's setter — the only place that notifies the owner's listeners — is bypassed"""
+    out = []
+    for st in ast.walk(tree):
+        tgts = st.targets if isinstance(st, ast.Assign) else ([st.target] if isinstance(st, (ast.AugAssign, ast.AnnAssign)) else [])
+        for t in tgts:
+            for x in ast.walk(t):
+                if isinstance(x, ast.Attribute) and isinstance(x.ctx, ast.Store) and x.attr.startswith('_') and not x.attr.startswith('__') \
+                        and not (isinstance(x.value, ast.Name) and x.value.id in ('self', 'cls')) and x.attr in ('_tensor', '_need_update', 'need_update', '_parameters', '_listeners', 'listeners'):
+                    out.append((st, x))
+    return out
+
+
+def check_foreign_private_stores(ctx, rep, rule='C11.W'):
+    if len(foreign_private_stores(ast.parse(FOREIGN_POSITIVE))) != 1:
+        raise AnalysisError('C11.W self-check: the foreign store of the embedded example is not recognised')
+    hits = []
+    n = 0
+    for m in ctx.prog.modules.values():
+        n += 1
+        for st, x in foreign_private_stores(m.tree):
+            hits.append((m, st, x))
+    for m, st, x in hits:
+        fn = st
+        while fn is not None and not isinstance(fn, ast.FunctionDef):
+            fn = getattr(fn, '_parent', None)
+        cl = getattr(fn, '_parent', None) if fn is not None else None
+        scope = f"{cl.name}.{fn.name}" if isinstance(cl, ast.ClassDef) else (fn.name if fn is not None else '<module>')
+        rep.bad(rule, f"{m.name}::{scope}::{norm_text(st)[:50]}::storage-of-another-object", where(m, st), {'attribute': ast.unparse(x)},
+                f"{scope}: `{norm_text(st)[:60]}` writes the private storage of another object: its tensor setter — which is what tells its listeners — is bypassed, so every model "
+                f"that listens to that object keeps the value it computed before")
+    rep.ok(rule, 'package::private-storage-is-written-by-its-owner-only', '', {'modules_scanned': n})
